@@ -22,7 +22,7 @@ From RU Require Import Base.Prelude Base.Utf8 Base.Utf8Facts Model.AsciiSet Gen.
   Model.HostT Model.UrlRecord Model.Parser Model.Setters Model.WF Model.MakeRelative Model.KnownC08
   Proofs.ListN Proofs.C02_Enc Proofs.C02_Parts Proofs.C02_Opaque Proofs.C02_Path Proofs.C02_PathL1 Proofs.C02_Reach
   Proofs.C03_WF Proofs.C06_List Proofs.C06_WFI Proofs.C06_Tail
-  Proofs.C08_Input Proofs.C08_Simple Proofs.C08_Contain Proofs.C08_Absolute Proofs.C08_Relative.
+  Proofs.C08_Input Proofs.C08_Simple Proofs.C08_Contain Proofs.C08_NoAuth Proofs.C08_Absolute Proofs.C08_Relative Proofs.C08_RelEval.
 Open Scope N_scope.
 Open Scope list_scope.
 
@@ -93,38 +93,52 @@ Theorem C08_query_accessors : forall dbg (hp hpo : list N -> result host) b Q F,
 Proof. exact with_query_spec. Qed.
 Print Assumptions C08_query_accessors.
 
-(* ================= 4. containment ================= *)
-(* what "never changes scheme, credentials, host or port" means on the record *)
-Definition contained (dbg : bool) (b u' : url) : Prop :=
-  scheme_end u' = scheme_end b /\ username_end u' = username_end b /\ host_start u' = host_start b
-  /\ host_end u' = host_end b /\ hosti u' = hosti b /\ port u' = port b
-  /\ same_front dbg b u'
-  /\ (if has_authority_b b
-      then path_start u' = path_start b /\ agree_pre (path_start b) (ser b) (ser u')
-      else agree_pre (scheme_end b + 2) (ser b) (ser u')).
-
-(* full statement: every base that can be a base and is not a file URL (file: F-C01-1 / F-C08-1) *)
+(* ================= 4. containment (FULL for every non-file base) ================= *)
+(* what "never changes scheme, credentials, host or port" means on the record (Proofs/C08_NoAuth.v):
+   contained dbg b u' :=
+     the six offsets / host kind / port in front of the path are the base's,
+     scheme(), username(), password(), host_str(), port() read the same (same_front), and
+     - base with authority: path_start is the base's, everything in front of the path is byte-identical
+       (agree_pre (path_start b)), and the result is well-formed (wf_b);
+     - base without authority ("scheme:/path", possibly with the "/." marker, which with_query_and_fragment
+       may insert or remove, moving path_start by 2): "scheme:/" is byte-identical (agree_pre (scheme_end b + 2));
+       there are no credentials, host or port. *)
 Definition C08_contain_statement : Prop :=
   forall dbg hp hpo hd b input u',
   wf_b b = true -> cannot_be_a_base b = Some false -> st_is_file (b_st b) = false ->
   usv_list input -> contain_pre b input = true ->
   join dbg hp hpo hd b input = POk u' -> contained dbg b u'.
 
-(* proved: bases with an authority (every special non-file URL, every "scheme://..." URL): the result is
-   well-formed, everything in front of the path is byte-identical, all seven offsets / host kind / port are
-   the base's, and the five front accessors read the same *)
-Theorem C08_contain_partial : forall dbg hp hpo hd b input u',
+Theorem C08_contain : C08_contain_statement.
+Proof. exact contain_nonfile. Qed.
+Check C08_contain : forall dbg hp hpo hd b input u',
+  wf_b b = true -> cannot_be_a_base b = Some false -> st_is_file (b_st b) = false ->
+  usv_list input -> contain_pre b input = true ->
+  parse_url dbg hp hpo hd None (Some b) input = POk u' ->
+  scheme_end u' = scheme_end b /\ username_end u' = username_end b /\ host_start u' = host_start b
+  /\ host_end u' = host_end b /\ hosti u' = hosti b /\ port u' = port b
+  /\ same_front dbg b u'
+  /\ (if has_authority_b b
+      then path_start u' = path_start b /\ agree_pre (path_start b) (ser b) (ser u') /\ wf_b u' = true
+      else agree_pre (scheme_end b + 2) (ser b) (ser u')).
+Print Assumptions C08_contain.
+
+(* the case with authority on its own (every special non-file URL, every "scheme://..." URL) *)
+Theorem C08_contain_auth : forall dbg hp hpo hd b input u',
   wf_b b = true -> has_authority_b b = true -> st_is_file (b_st b) = false ->
   usv_list input -> contain_pre b input = true ->
   join dbg hp hpo hd b input = POk u' ->
   wf_b u' = true /\ same_front dbg b u' /\ same_main b u' /\ agree_pre (path_start b) (ser b) (ser u').
 Proof. exact contain_auth. Qed.
-Check C08_contain_partial : forall dbg hp hpo hd b input u',
-  wf_b b = true -> has_authority_b b = true -> st_is_file (b_st b) = false ->
+Print Assumptions C08_contain_auth.
+
+(* file bases are NOT covered by C08_contain (only by C08_empty / C08_frag / C08_query): *)
+Definition C08_contain_file_statement : Prop :=
+  forall dbg hp hpo hd b input u',
+  wf_b b = true -> cannot_be_a_base b = Some false -> st_is_file (b_st b) = true ->
   usv_list input -> contain_pre b input = true ->
-  parse_url dbg hp hpo hd None (Some b) input = POk u' ->
-  wf_b u' = true /\ same_front dbg b u' /\ same_main b u' /\ agree_pre (path_start b) (ser b) (ser u').
-Print Assumptions C08_contain_partial.
+  join dbg hp hpo hd b input = POk u' ->
+  hosti u' = hosti b \/ hosti u' = HI_None.   (* the host is kept or dropped (F-C08-1), never replaced *)
 
 (* file bases: the drive-letter branch drops the host (F-C01-1 / F-C08-1, in url/tests/expected_failures.txt);
    the fixed F-C08-5 = F-C01-4 no longer reproduces on the model *)
@@ -187,6 +201,20 @@ Definition C08_relative_statement : Prop :=
   forall b t r, parsed dbg hp hpo hd b -> parsed dbg hp hpo hd t ->
   mr_ok b t = true -> make_relative dbg b t = Some (Some r) ->
   join dbg hp hpo hd b r = POk t.
+
+(* proved part: for a target with the same path (and, as make_relative requires, the same scheme, host and
+   port) the reference is exactly ["?" query]["#" fragment] of the target - so its resolution against the base
+   is the one C08_empty / C08_frag / C08_query describe (the base's query is kept when the target has none:
+   class 41).  The general inverse law (references with '..' and path segments) is not proved. *)
+Theorem C08_relative_partial : forall dbg b t sch h p q f,
+  cannot_be_a_base b = Some false -> cannot_be_a_base t = Some false ->
+  scheme b = Some sch -> scheme t = Some sch ->
+  host_of b = Some h -> host_of t = Some h -> port b = port t ->
+  path b = Some p -> path t = Some p -> extract_path_filename p <> None ->
+  query dbg t = Some q -> fragment dbg t = Some f ->
+  make_relative dbg b t = Some (Some (qf_text q f)).
+Proof. exact make_relative_same_path. Qed.
+Print Assumptions C08_relative_partial.
 
 (* every excluded class of MR_ok contains a pair of well-formed parse results on which make_relative answers
    Some(r) and join(b, r) <> t *)
